@@ -8,17 +8,64 @@ MIN_PER_SHARD = 10
 ALL_KINDS = ["op", "comp", "comp", "struct", "struct", "newce", "newce", "newce", "kraus", "measure", "measure", "povm", "resize", "trace_out"]
 
 
+from hypothesis import strategies as st
+
+
+@st.composite
+def _merge_storm(draw):
+    """many small composite envelopes and a program that mostly merges handles (chains, re-wraps, handles
+    reached only through a member envelope), with a few combines / measurements in between"""
+    n_env = draw(st.integers(2, 4))
+    envs = [dict(fdim=2, fock=draw(st.integers(0, 1)), pol=draw(st.sampled_from(["H", "V"]))) for _ in range(n_env)]
+    customs = [dict(dim=2, label=0) for _ in range(draw(st.integers(0, 2)))]
+    units = [f"e{i}" for i in range(n_env)] + [f"c{i}" for i in range(len(customs))]
+    k = draw(st.integers(2, min(4, len(units))))
+    shuffled = list(draw(st.permutations(units)))
+    cuts = sorted(draw(st.lists(st.integers(1, len(units) - 1), min_size=k - 1, max_size=k - 1, unique=True))) if len(units) > 1 else []
+    ces, prev = [], 0
+    for c in cuts + [len(units)]:
+        if shuffled[prev:c]:
+            ces.append(sorted(shuffled[prev:c]))
+        prev = c
+    spec = dict(envs=envs, customs=customs, ces=ces)
+    layout = []
+    info = S.Info(spec, layout)
+    steps = []
+    n_handles = len(ces)
+    for _ in range(draw(st.integers(3, 9))):
+        r = draw(st.integers(0, 9))
+        if r <= 5:
+            pool = [f"ce{j}" for j in range(n_handles)] + units
+            m = list(dict.fromkeys(draw(st.lists(st.sampled_from(pool), min_size=1, max_size=3))))
+            steps.append(dict(k="struct", call="new_ce", members=m))
+            n_handles += 1
+        elif r <= 7:
+            cname = f"ce{draw(st.integers(0, n_handles - 1))}"
+            subs = list(dict.fromkeys(draw(st.lists(st.sampled_from(info.subs), min_size=2, max_size=3))))
+            steps.append(dict(k="struct", call=draw(st.sampled_from(["ce_combine", "ce_reorder"])), ce=cname, members=subs))
+        else:
+            cname = f"ce{draw(st.integers(0, n_handles - 1))}"
+            t = draw(st.sampled_from(info.subs))
+            steps.append(dict(k="measure", entry=cname, targets=[t], sep=draw(st.booleans()), destructive=draw(st.booleans()), script=[draw(st.integers(0, 3))]))
+    return dict(spec=spec, layout=layout, contraction=draw(st.booleans()), steps=steps, family="merge-storm")
+
+
 def strategy(tier):
-    return S.program_case(ALL_KINDS, max_steps=8 if tier == "quick" else 14, min_steps=3)
+    return st.one_of(S.program_case(ALL_KINDS, max_steps=8 if tier == "quick" else 14, min_steps=3),
+                     S.lifecycle_case(), _merge_storm())
 
 RULE = (
-    "Histories as in C07 with composite-envelope constructions and merges among the steps (new handles over "
+    "Two families. (1) 'Merge storms': 2-4 small composite envelopes over single units and 3-9 steps that mostly construct "
+    "further handles from generated mixtures of existing handles, envelopes and custom states (re-wraps, chains, "
+    "handles reached only through a member envelope, three-way merges), with combines/reorders/measurements through "
+    "generated handles in between. (2) Histories as in C07 with composite-envelope constructions and merges among the steps (new handles over "
     "existing members, handles that already share a container, chains). Invariant after every successful call "
     "(bookkeeping predicate over registries, containers, back pointers and indices): every live subsystem is "
     "stored in exactly one place and its public index names it (None / position in its envelope / (product-space "
     "position, tensor position)); subsystems in a product space point back to a composite handle that resolves to "
     "that container; member envelopes' composite id resolves to their container; no product space listed twice "
-    "or left empty; no envelope or subsystem listed twice; destroyed subsystems hold no state and no index. "
+    "or left empty; no envelope or subsystem listed twice; destroyed subsystems hold no state and no index; all handles that were ever "
+    "merged with each other resolve to one and the same container. "
     "Non-trivial = the history contains a merge or a step that removes subsystems from a product space, after "
     "which further steps ran; distinct = hash of (layout, step kinds and sites)."
 )
